@@ -441,6 +441,9 @@ def run_api(ctx, r, spec, label, per_method=1, informational=None):
             if bad and any("/verif/harness/" in b and ("IndentationError" in b or "SyntaxError" in b) for b in bad):
                 time.sleep(5)          # a shared harness file is being edited by a concurrent builder
                 continue
+            if any(b == "timeout" for b in bad) and attempt < 2:
+                ctx.count("infrastructure", "session-timeout-retried")   # sporadic hang of the run-time shell: retry
+                continue
             break
     finally:
         genrun.cleanup(root)
